@@ -13,7 +13,7 @@
    by a witness on the responder level and on the full world model (the history replayed on the server; known finding). *)
 From Coq Require Import List NArith Bool.
 From Gluon Require Import Model.Responders Model.Session Proofs.MirrorProofs Proofs.MergeProofs Proofs.PopProofs Proofs.MembershipProofs Proofs.CommuteProofs Proofs.InterleaveProofs Proofs.MirrorOrderProofs
-  Proofs.SessionWitness.
+  Proofs.SessionWitness Proofs.ReadOnlyProofs Proofs.LeaveProofs.
 Import ListNotations.
 Open Scope N_scope.
 
@@ -99,6 +99,38 @@ Print Assumptions C01_world_refuted.
 
 (* non-vacuity of the guard: a session with two messages receives a foreign message with a higher UID, a flag change
    and an expunge; the guard holds and the mirror keeps agreeing *)
+(* leaving a mailbox (CLOSE, UNSELECT) and selecting the next one: CLOSE removes what EXPUNGE would remove but answers no
+   EXPUNGE; afterwards the session has no snapshot and NOTHING pending, and the next SELECT starts from the database with
+   nothing pending - what was queued for the old mailbox can never be answered from, or applied to, the next one *)
+Theorem C01_close_leaves_nothing_pending : forall w i s sel w' out oc,
+  get_sess w i = Some s -> ss_idle s = false -> ss_sel s = Some sel ->
+  do_cmd w i CClose = (w', out, oc) -> oc = OOk ->
+  same_db w' (fst (remove_rows w sel (deleted_here w sel (s_snap (ss_st s))))) /\
+  (exists s', get_sess w' i = Some s' /\ left_mailbox s') /\
+  forallb (fun r => negb (is_pexpunge r)) out = true.
+Proof. exact close_leaves. Qed.
+Print Assumptions C01_close_leaves_nothing_pending.
+
+Theorem C01_unselect_leaves_nothing_pending : forall w i s sel,
+  get_sess w i = Some s -> ss_idle s = false -> ss_sel s = Some sel ->
+  exists w', do_cmd w i CUnselect = (w', [], OOk) /\ same_db w w' /\
+             (exists s', get_sess w' i = Some s' /\ left_mailbox s' /\ ss_queue s' = ss_queue s) /\
+             (forall j, j <> i -> get_sess w' j = get_sess w j).
+Proof. exact unselect_leaves. Qed.
+Print Assumptions C01_unselect_leaves_nothing_pending.
+
+Theorem C01_select_starts_from_the_database : forall w i s mb,
+  get_sess w i = Some s -> ss_idle s = false ->
+  exists w' out, do_cmd w i (CSelect mb) = (w', out, OOk) /\
+    exists s', get_sess w' i = Some s' /\ s_res (ss_st s') = [] /\ s_snap (ss_st s') = fresh_view w mb.
+Proof. exact select_starts_clean. Qed.
+Print Assumptions C01_select_starts_from_the_database.
+
+Example C01_close_example :
+  exists w', do_cmd lv_w0 0 CClose = (w', [PFetch 2 [3] None], OOk) /\ mbox_of w' 0 = [mkRow 2 2 false] /\
+             option_map ss_sel (get_sess w' 0) = Some None.
+Proof. exact close_example. Qed.
+
 Example C01_guard_example :
   let s := [mkSmsg 1 1 [2]; mkSmsg 2 2 []] in
   let rs := [RExists 3 5 [0] false false; RFetch 1 [3] FAdd false false false; RExpunge 2] in
